@@ -107,15 +107,98 @@ fn agrees(cfg: &Config, got: ColorChoice, want: ColorChoice) -> bool {
 }
 
 fn mode_of(c: ColorChoice) -> ColorChoice {
-    // what `current_choice` reports on a non-Windows platform
+    // the mode of a stream on a non-Windows platform: colour forwarded (whether `current_choice`
+    // spells that Always or AlwaysAnsi is not part of the property) or stripped; Auto is no mode
     match c {
         ColorChoice::Never => ColorChoice::Never,
+        ColorChoice::Auto => ColorChoice::Auto,
         _ => ColorChoice::AlwaysAnsi,
     }
 }
 
 fn check_config(cfg: &Config, st: &Streams) -> Result<(), String> {
     apply_env(cfg);
+    check_config_here(cfg, st)
+}
+
+/// When does the code under test read the environment? The property speaks of "the environment",
+/// not of re-reading it: a library may sample it once per process. A mismatch seen after THIS
+/// process changed its own environment is therefore only a violation if a fresh process - started
+/// with that environment - shows it too.
+#[derive(Default)]
+struct EnvMode {
+    /// a mismatch was refuted by a fresh process: in-process results are meaningless from here on
+    sampled_once: bool,
+    refuted: u64,
+    seen: u64,
+}
+
+fn in_fresh_process(cfg: &Config) -> Result<(), String> {
+    let exe = std::env::current_exe().map_err(|e| format!("current_exe: {e}"))?;
+    let mut cmd = std::process::Command::new(exe);
+    cmd.arg("--cfg-child").arg(serde_json::to_string(cfg).unwrap_or_default());
+    for (k, v) in VARS.iter().zip(cfg.env.iter()) {
+        match v {
+            None => cmd.env_remove(k),
+            Some(b) => cmd.env(k, OsString::from_vec(b.clone())),
+        };
+    }
+    match &cfg.colorterm {
+        None => cmd.env_remove("COLORTERM"),
+        Some(b) => cmd.env("COLORTERM", OsString::from_vec(b.clone())),
+    };
+    let out = cmd.output().map_err(|e| format!("spawn: {e}"))?;
+    let text = String::from_utf8_lossy(&out.stdout).into_owned();
+    if text.trim() == "OK" {
+        Ok(())
+    } else {
+        Err(text.trim().to_owned())
+    }
+}
+
+fn cfg_child(json: &str) {
+    let r = (|| -> Result<(), String> {
+        let cfg: Config = serde_json::from_str(json).map_err(|e| format!("bad cfg: {e}"))?;
+        choice_of(cfg.global).write_global();
+        let st = open_streams();
+        if cfg.terminal && st.pty.is_none() {
+            return Err("no pty in the child".into());
+        }
+        rt::guarded(|| check_config_here(&cfg, &st))
+    })();
+    match r {
+        Ok(()) => println!("OK"),
+        Err(m) => println!("ERR {m}"),
+    }
+}
+
+/// in-process first; a mismatch is confirmed or refuted by a fresh process; once refuted, every
+/// 16th configuration is judged in a fresh process and the others are skipped
+fn judged(cfg: &Config, st: &Streams, mode: &mut EnvMode, acc: &mut Acc) -> Result<(), String> {
+    mode.seen += 1;
+    if mode.sampled_once {
+        if mode.seen % 16 != 0 {
+            acc.class("skipped:environment-sampled-once-per-process");
+            return Ok(());
+        }
+        acc.class("judged-in-a-fresh-process");
+        return in_fresh_process(cfg).map_err(|m| format!("[fresh process with that environment] {m}"));
+    }
+    match check_config(cfg, st) {
+        Ok(()) => Ok(()),
+        Err(m) => match in_fresh_process(cfg) {
+            Ok(()) => {
+                mode.sampled_once = true;
+                mode.refuted += 1;
+                acc.class("in-process mismatch refuted by a fresh process (the environment is sampled once per process)");
+                Ok(())
+            }
+            Err(m2) => Err(format!("{m} [confirmed by a fresh process started with that environment: {m2}]")),
+        },
+    }
+}
+
+fn check_config_here(cfg: &Config, st: &Streams) -> Result<(), String> {
     if ColorChoice::global() != choice_of(cfg.global) {
         return Err(format!("ColorChoice::global() = {:?} after write_global({:?})", ColorChoice::global(), choice_of(cfg.global)));
     }
@@ -136,7 +219,7 @@ fn check_config(cfg: &Config, st: &Streams) -> Result<(), String> {
                 return Err(format!("terminal stream as Box<File>: choice = {:?}, expected {:?} for {}", got, want, show()));
             }
             let sb = AutoStream::auto(boxed);
-            if !sb.is_terminal() || sb.current_choice() != mode_of(want) {
+            if !sb.is_terminal() || mode_of(sb.current_choice()) != mode_of(want) {
                 return Err(format!("terminal stream as Box<File>: auto(): is_terminal {} current_choice {:?}, expected {:?} for {}", sb.is_terminal(), sb.current_choice(), mode_of(want), show()));
             }
             let mut f2 = pty.try_clone().map_err(|e| format!("dup pty: {e}"))?;
@@ -146,7 +229,7 @@ fn check_config(cfg: &Config, st: &Streams) -> Result<(), String> {
                 return Err(format!("terminal stream as &mut File: choice = {:?}, expected {:?} for {}", got, want, show()));
             }
             let sr = AutoStream::auto(r);
-            if !sr.is_terminal() || sr.current_choice() != mode_of(want) {
+            if !sr.is_terminal() || mode_of(sr.current_choice()) != mode_of(want) {
                 return Err(format!("terminal stream as &mut File: auto(): is_terminal {} current_choice {:?}, expected {:?} for {}", sr.is_terminal(), sr.current_choice(), mode_of(want), show()));
             }
         }
@@ -154,7 +237,7 @@ fn check_config(cfg: &Config, st: &Streams) -> Result<(), String> {
         if !s.is_terminal() {
             return Err("pty not reported as terminal".into());
         }
-        if s.current_choice() != mode_of(want) {
+        if mode_of(s.current_choice()) != mode_of(want) {
             return Err(format!("terminal stream: auto().current_choice() = {:?}, expected {:?} for {}", s.current_choice(), mode_of(want), show()));
         }
     } else {
@@ -164,11 +247,11 @@ fn check_config(cfg: &Config, st: &Streams) -> Result<(), String> {
             return Err(format!("Vec<u8>: choice = {:?}, expected {:?} for {}", got, want, show()));
         }
         let s = AutoStream::auto(v);
-        if s.current_choice() != mode_of(want) {
+        if mode_of(s.current_choice()) != mode_of(want) {
             return Err(format!("Vec<u8>: auto().current_choice() = {:?}, expected {:?} for {}", s.current_choice(), mode_of(want), show()));
         }
         let s = AutoStream::new(Vec::<u8>::new(), choice_of(cfg.global));
-        if s.current_choice() != mode_of(want) {
+        if mode_of(s.current_choice()) != mode_of(want) {
             return Err(format!("Vec<u8>: new(global).current_choice() = {:?}, expected {:?} for {}", s.current_choice(), mode_of(want), show()));
         }
         for (name, f) in [("regular file", &st.file), ("pipe", &st.pipe_w)] {
@@ -186,7 +269,7 @@ fn check_config(cfg: &Config, st: &Streams) -> Result<(), String> {
             if s.is_terminal() {
                 return Err(format!("{name} reported as terminal"));
             }
-            if s.current_choice() != mode_of(want) {
+            if mode_of(s.current_choice()) != mode_of(want) {
                 return Err(format!("{name}: auto().current_choice() = {:?}, expected {:?}", s.current_choice(), mode_of(want)));
             }
         }
@@ -346,6 +429,7 @@ fn run(args: &Args, rep: &mut Report) {
     let cis: [Option<Vec<u8>>; 3] = [None, Some(vec![]), Some(b"true".to_vec())];
     let mut acc = Acc::new();
     acc.sample_cap = 4;
+    let mut mode = EnvMode::default();
     'outer: for global in 0u8..4 {
         for nc in &four {
             for cf in &four {
@@ -364,7 +448,7 @@ fn run(args: &Args, rep: &mut Report) {
                                     acc.nontrivial_distinct();
                                 }
                                 acc.class(&format!("expected-{:?}", expected(&cfg)));
-                                if let Err(m) = rt::guarded(|| check_config(&cfg, &st)) {
+                                if let Err(m) = rt::guarded(|| judged(&cfg, &st, &mut mode, &mut acc)) {
                                     acc.fail("cross-product", serde_json::to_value(&cfg).unwrap(), m);
                                     break 'outer;
                                 }
@@ -379,6 +463,7 @@ fn run(args: &Args, rep: &mut Report) {
     }
     rep.add("cross-product", true, "4 x 4 x 4 x 4 x 4 x 3 configurations x COLORTERM {unset, truecolor, 24bit} (no part in the decision) x {non-terminal (Vec, file, pipe), terminal (pty)}", vec![acc]);
 
+    let mode_cell = std::cell::RefCell::new(mode);
     let mut acc = Acc::new();
     prop_worker(
         &mut acc,
@@ -386,7 +471,7 @@ fn run(args: &Args, rep: &mut Report) {
         rt::derive_seed(args.seed, "random-values", 0),
         tier.pick(20_000, 3_000_000),
         &arb_config(have_pty),
-        |cfg, _| match check_config(cfg, &st) {
+        |cfg, a| match judged(cfg, &st, &mut mode_cell.borrow_mut(), a) {
             Ok(()) => Verdict::ok((cfg.global == 0 && cfg.env.iter().any(|v| v.is_some())).then(|| digest_str(&describe(cfg)))),
             Err(m) => Verdict { result: Err(m), nontrivial: None },
         },
@@ -394,8 +479,12 @@ fn run(args: &Args, rep: &mut Report) {
     );
     rep.add("random-values", false, "random values per variable incl. whitespace, case variants, non-UTF-8 bytes, long strings", vec![acc]);
 
+    let mode = mode_cell.into_inner();
+    if mode.sampled_once {
+        rep.note("the code under test samples the environment once per process (an in-process mismatch was refuted by a fresh process): the cross product was judged in fresh processes (every 16th configuration); the COLORTERM probe walk and the std-streams-on-pty walk, which change the environment inside one process, were not run");
+    }
     let mut acc = Acc::new();
-    match rt::guarded(check_colorterm) {
+    match rt::guarded(|| if mode.sampled_once { Ok(0) } else { check_colorterm() }) {
         Ok(n) => {
             acc.evals = n;
             acc.nontrivial_counted = n;
@@ -417,7 +506,9 @@ fn run(args: &Args, rep: &mut Report) {
 
     let mut acc = Acc::new();
     let mut notes = vec![];
-    check_std_on_pty(&mut acc, &mut notes);
+    if !mode.sampled_once {
+        check_std_on_pty(&mut acc, &mut notes);
+    }
     for n in &notes {
         rep.note(n);
     }
@@ -467,8 +558,8 @@ fn pty_child(result: &str) {
                                 ("StderrLock", AutoStream::choice(&std::io::stderr().lock()), AutoStream::auto(std::io::stderr().lock()).is_terminal()),
                                 ("Box<Stdout>", AutoStream::choice(&Box::new(std::io::stdout())), AutoStream::auto(Box::new(std::io::stdout())).is_terminal()),
                                 // current_choice reports the mode: AlwaysAnsi for every colour-enabled decision
-                                ("anstream::stderr()", if anstream::stderr().current_choice() == mode_of(want_err) { want_err } else { anstream::stderr().current_choice() }, anstream::stderr().is_terminal()),
-                                ("anstream::stdout()", if anstream::stdout().current_choice() == mode_of(want_out) { want_out } else { anstream::stdout().current_choice() }, anstream::stdout().is_terminal()),
+                                ("anstream::stderr()", if mode_of(anstream::stderr().current_choice()) == mode_of(want_err) { want_err } else { anstream::stderr().current_choice() }, anstream::stderr().is_terminal()),
+                                ("anstream::stdout()", if mode_of(anstream::stdout().current_choice()) == mode_of(want_out) { want_out } else { anstream::stdout().current_choice() }, anstream::stdout().is_terminal()),
                             ];
                             for (name, g, t) in got {
                                 n += 1;
@@ -573,13 +664,20 @@ fn replay(sub: &str, case: &Value) -> Result<(), String> {
             if cfg.terminal && st.pty.is_none() {
                 return Err("no pty available for replay".into());
             }
-            check_config(&cfg, &st)
+            check_config(&cfg, &st).or_else(|m| match in_fresh_process(&cfg) {
+                Ok(()) => Ok(()),
+                Err(m2) => Err(format!("{m} [fresh process: {m2}]")),
+            })
         }
     }
 }
 
 fn main() {
     let argv: Vec<String> = std::env::args().collect();
+    if argv.get(1).map(|s| s.as_str()) == Some("--cfg-child") {
+        cfg_child(argv.get(2).map(|s| s.as_str()).unwrap_or(""));
+        return;
+    }
     if argv.get(1).map(|s| s.as_str()) == Some("--pty-child") {
         pty_child(argv.get(2).map(|s| s.as_str()).unwrap_or("/dev/null"));
         return;
